@@ -13,12 +13,15 @@ COMMON = [
 ]
 def common(P): return [(a, b, c.replace('{P}', P), d) for a, b, c, d in COMMON]
 
-m.write('C09', 'A session with four conforming clients always runs to completion (every schedule).', IMP, '''(* FULL STATEMENT (not proved in this form): for every non-empty board list, every arrival order seating four clients and every
+PO = 'Proofs/SessionPassOut.v'
+m.write('C09', 'A session with four conforming clients always runs to completion (every schedule).', IMP.replace('Proofs.SessionExamples.', 'Proofs.SessionExamples Proofs.SessionPassOut Proofs.Wire.'), '''(* FULL STATEMENT (not proved in this form): for every non-empty board list, every arrival order seating four clients and every
    conforming script, every maximal run of the network ends with every process returned.  What is proved: for EVERY input, all
    schedules agree (below); that the canonical schedule completes is evaluated by vm_compute for each session exercised by the
    check and for the examples below - hence the suffix _partial on the combined statement. *)''',
  common('C09') + [
  (S, 'every_schedule_reaches_canonical', 'C09_every_schedule_completes_partial', 'if the canonical run of a session reaches a final state, every schedule of that session reaches exactly that state: no deadlock, no lost wake-up, however long a thread is delayed'),
+ (PO, 'passout_session_completes', 'C09_passed_out_sessions_complete', 'FULL, symbolic and unbounded, for one infinite family: ANY non-empty list of boards (arbitrary deals, dealers, vulnerabilities, ids), four clients arriving N, E, S, W, everybody passing: a schedule exists that drives the network to the state where every process has returned, with a log of one record per board'),
+ (PO, 'passout_session_every_schedule', 'C09_passed_out_sessions_every_schedule', 'hence EVERY schedule of such a session completes, in the same way and within the same number of steps'),
  (E, 'ex_played_completes', 'C09_example_played_session_completes', 'non-vacuity: a two-board session taken from a real run'),
  (E, 'ex_passed_out_completes', 'C09_example_passed_out_session_completes', None),
  (E, 'ex_played_model_is_the_real_run', 'C09_example_model_is_the_real_run', None),
@@ -42,10 +45,22 @@ m.write('C08', "The table manager's log records exactly what was played (every s
  (E, 'ex_played_model_is_the_real_run', 'C08_example_model_is_the_real_run', None),
  (E, 'ex_passed_out_real_run_is_the_reference', 'C08_example_passed_out', None),
 ])
-m.write('C10', 'Each seat is told exactly what the protocol entitles it to, and nothing else (every schedule).', IMP, '''(* FULL STATEMENT (not proved in this form): the lines sent on connection p equal view_spec p of Spec/SessionSpec.v for every
+VW = 'Proofs/View.v'
+m.write('C10', 'Each seat is told exactly what the protocol entitles it to, and nothing else (every schedule).', IMP.replace('Proofs.SessionExamples.', 'Proofs.SessionExamples Proofs.View.').replace('Local Open Scope nat_scope.', 'Local Open Scope string_scope.\nLocal Open Scope nat_scope.'), '''(* FULL STATEMENT (not proved in this form): the lines sent on connection p equal view_spec p of Spec/SessionSpec.v for every
    input.  Proved: schedule independence for every input; equality with view_spec is evaluated in Coq per exercised session. *)''',
  common('C10') + [
  (S, 'every_schedule_reaches_canonical', 'C10_transcripts_independent_of_timing_partial', 'the complete transcript of every connection does not depend on thread timing'),
+ (VW, 'view_board_decomp', 'C10_view_decomposition', 'the reference itself says what the property says: start line, header, own hand; then the auction part; then the play part'),
+ (VW, 'board_starts_with_header', 'C10_board_starts_with_configured_header', None),
+ (VW, 'view_spec_cards_lines', 'C10_only_own_cards_and_dummy', 'over a whole session the only cards lines a seat is sent are its own hand and Dummy (client texts that themselves look like a cards line excluded)'),
+ (VW, 'dummy_never_sees_any_dummy_line', 'C10_dummy_never_sent_dummy', None),
+ (VW, 'others_see_dummy_exactly_once', 'C10_others_sent_dummy_exactly_once', None),
+ (VW, 'dummy_line_right_after_first_card', 'C10_dummy_shown_right_after_opening_lead', 'after the relayed opening lead (after its own lead prompt, for the leader) and before anything about the second card'),
+ (VW, 'no_dummy_line_without_play', 'C10_no_dummy_without_play', None),
+ (VW, 'calls_relayed_in_order', 'C10_calls_relayed_in_order_to_the_others', None),
+ (VW, 'cards_relayed_to_others', 'C10_cards_relayed_in_order_to_the_others', 'to every seat other than the one that spoke for the card (declarer for dummy)'),
+ (VW, 'lead_prompt_only_when_leading', 'C10_lead_prompt_only_to_the_leader', None),
+ (VW, 'dummy_lead_prompt_only_for_declarer', 'C10_dummy_lead_prompt_only_to_declarer', None),
  (E, 'ex_played_real_run_is_the_reference', 'C10_example_transcripts_are_the_reference', 'non-vacuity'),
  (E, 'ex_admission_real_run_is_the_reference', 'C10_example_with_rejected_connections', None),
 ])
